@@ -931,3 +931,37 @@ Contract(
     note="the TASK_CANCEL row is written through the csv logger (dropped like every logger call: row contents are decided by the bounded worlds); AttributeError when the event has no task",
     props=("C06", "C08"),
 )
+
+
+# =================================================================================================
+# Simulator.__handle_task_preempt : a running task leaves its worker and becomes PREEMPTED (C06)
+# =================================================================================================
+def _hpre_mod(c):
+    s, ev = c.arg("self"), c.arg("event")
+    task = ev_task(c.pre, ev)
+    out = {c.pre.fld_arr(TASK, f)[0]: [task] for f in ("_state", "_worker_pool_id")}
+    pl = T.List(T.Ref("workload.tasks.Task.Preemption"))
+    lst = c.pre.rd(task, TASK, "_preemptions")[1]
+    out[c.pre.carr(pl, "len")[0]] = [lst]
+    out[c.pre.carr(pl, "elem")[0]] = [lst]
+    for f in ("preemption_time", "old_worker_pool", "restart_time", "new_worker_pool"):
+        out[c.pre.fld_arr("workload.tasks.Task.Preemption", f)[0]] = []
+    return out
+
+
+Contract(
+    "simulator.Simulator.__handle_task_preempt",
+    params={"self": Simulator.ty, "event": S_.Event.ty},
+    requires=lambda c: {"task_event": ev_task(c.pre, c.arg("event")) != 0, "task_wf": wf_task(c.pre, ev_task(c.pre, c.arg("event")))},
+    may_raise=("ValueError", "AttributeError"),
+    raise_unchanged=False,
+    modifies=_hpre_mod,
+    ensures=lambda c: {
+        # C06: the only way from RUNNING to PREEMPTED; the task is taken off its pool first
+        "preempt.running_to_preempted": z3.And(task_state(c.pre, ev_task(c.pre, c.arg("event"))) == RUNNING, task_state(c.post, ev_task(c.pre, c.arg("event"))) == PREEMPTED),
+        "preempt.task_stays_wf": wf_task(c.post, ev_task(c.pre, c.arg("event"))),
+    },
+    allocates=True,
+    note="ValueError when the task is not RUNNING (Task.preempt) or not on the pool (WorkerPool.remove_task, abstract contract); AttributeError when its pool id names no pool; the TASK_PREEMPT row goes through the csv logger (dropped)",
+    props=("C06",),
+)
